@@ -18,7 +18,10 @@ def evaluate(e, env, memo=None):
     """env: name -> Fraction | bool.  Returns Fraction or bool."""
     if memo is None:
         memo = {}
-    return _ev(e, env, memo)
+    try:
+        return _ev(e, env, memo)
+    except (OverflowError, ZeroDivisionError, ValueError) as ex:
+        raise EvalError('numeric: %s' % ex)
 
 
 def _ev(e, env, memo):
